@@ -4,6 +4,7 @@ import (
 	"context"
 	"encoding/json"
 	"fmt"
+	"runtime"
 	"strings"
 	"time"
 
@@ -41,6 +42,8 @@ func c14IsoOne(c *fw.Ctx, cs c14IsoCase) { c14IsoOneP(c, cs, "C14") }
 // shared with another live connection").
 func c14IsoOneP(c *fw.Ctx, cs c14IsoCase, prop string) {
 	pc := func(class string) string { return prop + strings.TrimPrefix(class, "C14") }
+	runtime.GC() // every case starts from empty pools, whatever ran before it in the process
+	runtime.GC() // see c14SrvOne
 	c.Eval()
 	c.AddTraces(1)
 	desc := fmt.Sprintf("server mode %s: connection A accepted with offer %q, then connection B with offer %q", cs.Mode, cs.First, cs.Second)
@@ -170,6 +173,8 @@ var c14IsoResponses = []string{
 
 func c14IsoCliOneP(c *fw.Ctx, cs c14IsoCliCase, prop string) {
 	pc := func(class string) string { return prop + strings.TrimPrefix(class, "C14") }
+	runtime.GC() // every case starts from empty pools, whatever ran before it in the process
+	runtime.GC() // see c14SrvOne
 	c.Eval()
 	c.AddTraces(1)
 	desc := fmt.Sprintf("client mode %s: connection A dialled (response %q), then connection B with the same options (response %q)", cs.Mode, cs.First, cs.Second)
